@@ -160,6 +160,55 @@ for form, client, ok, reached in mapped_forms():
     if len(samples) < 6:
         samples.append({'destination_form': form, 'client': client, 'served': ok, 'origin_connections': reached})
 
+# ---- the `feature` attribute: what a filter is shown is what the request asks for (TCP tunnel, UDP session to one
+#      destination, UDP session standing for a source = `Udp-Bind-Source`); each kind has its own rule here
+def feature_routes():
+    org = Origin('echo'); uo = UdpOrigin()
+    q = {k: free_port() for k in ('http', 'api')}
+    cfgf = {'listeners': [{'name': 'http', 'bind': f"127.0.0.1:{q['http']}"}],
+            'connectors': [{'name': n, 'type': 'direct'} for n in ('c-bind', 'c-fwd', 'c-tcp', 'c-other')],
+            'rules': [{'filter': 'request.feature == "UdpBind" && request.target.port == 1', 'target': 'deny'},
+                      {'filter': 'request.feature == "UdpBind"', 'target': 'c-bind'}, {'filter': 'request.feature == "UdpForward"', 'target': 'c-fwd'},
+                      {'filter': 'request.feature == "TcpForward"', 'target': 'c-tcp'}, {'target': 'c-other'}],
+            'metrics': {'bind': f"127.0.0.1:{q['api']}", 'ui': None, 'historySize': 100}}
+    pf = Proxy(cfgf, 'c02f')
+    pf.api_port = q['api']
+    if not pf.start([q['http'], q['api']]):
+        machinery('feature routes: proxy did not start: ' + pf.log()[-300:])
+    out = []
+    try:
+        time.sleep(1.2)
+        base_ids = {r['id'] for r in json.loads(pf.api('GET', '/history')[1])}
+        reqs = [('TcpForward', f'127.0.0.1:{org.port}', b'', 'c-tcp'), ('UdpForward', f'127.0.0.1:{uo.port}', b'Proxy-Protocol: udp\r\n', 'c-fwd'),
+                ('UdpBind', f'127.0.0.1:{uo.port}', b'Proxy-Protocol: udp\r\nUdp-Bind-Source: 127.0.0.1:0\r\n', 'c-bind'), ('UdpBind', '127.0.0.1:1', b'Proxy-Protocol: udp\r\nUdp-Bind-Source: 127.0.0.1:0\r\n', 'deny')]
+        for feat, target, hdr, want in reqs:
+            s_, code, head, rest = http_connect(q['http'], target, extra_headers=hdr, timeout=4)
+            port = s_.getsockname()[1]
+            got = None
+            if code == 200:
+                # (a UDP session outlives its client by timeouts.udp: the record is read while the request is live)
+                got = 'no-record'
+                for _ in range(20):
+                    rec = [r for r in json.loads(pf.api('GET', '/live')[1]) if r['source'].endswith(f':{port}')]
+                    if rec and rec[0].get('connector'):
+                        got = rec[0]['connector']
+                        break
+                    time.sleep(0.05)
+            s_.close()
+            out.append([feat, target, want, code, port, got])
+    finally:
+        pf.stop(); org.stop(); uo.stop()
+    return out
+for feat, target, want, code, port, got in feature_routes():
+    evals += 1
+    distinct.add(('feature', feat, want, got))
+    rp = {'feature': feat, 'target': target}
+    if want == 'deny':
+        if code == 200 or got not in (None,):
+            chk.violation('routing.real', f'denied-request-served:feature-{feat}', f'{feat} request for {target}: the deny rule for its feature was not applied (status {code}, connector {got})', rp)
+    elif got != want:
+        chk.violation('routing.real', f'wrong-rule-selected:feature-{feat}', f'{feat} request for {target}: routed to {got!r} (status {code}), the first rule matching its real feature is {want!r}', rp)
+
 # ---- an upstream that cannot carry the requested feature: UDP requests routed to a SOCKS4 upstream (SOCKS4 has no UDP
 #      ASSOCIATE) or to a load balancer (TCP only) are refused, and no connection to the upstream is opened
 def no_udp_case(kind):
@@ -221,6 +270,6 @@ px.stop(); o4.stop(); o6.stop()
 if evals < 30 or len(distinct) < 10:
     machinery(f'vacuous: evals={evals} distinct={len(distinct)}')
 cov = {'evaluations': evals, 'distinct_nontrivial': len(distinct), 'transitions': evals, 'traces_validated_against_impl': evals,
-       'rule': 'real binary with dual-stack listeners: client source {127.0.0.1, 127.0.0.2, ::1} x client protocol {http, socks5, socks4, reverse} x target {IPv4, domain, IPv6, a denied port}; 8 rules over request.source.host/type, request.listener, request.target.host/type/port; the recorded connector must equal the first-match reference evaluated on the true attributes, the recorded source must be the real client address, denied requests are refused and reach no origin; an IPv4 destination written as IPv4-mapped IPv6 (3 spellings x http / socks5) is still inside a denied IPv4 range',
+       'rule': 'real binary with dual-stack listeners: client source {127.0.0.1, 127.0.0.2, ::1} x client protocol {http, socks5, socks4, reverse} x target {IPv4, domain, IPv6, a denied port}; 8 rules over request.source.host/type, request.listener, request.target.host/type/port; the recorded connector must equal the first-match reference evaluated on the true attributes, the recorded source must be the real client address, denied requests are refused and reach no origin; an IPv4 destination written as IPv4-mapped IPv6 (3 spellings x http / socks5) is still inside a denied IPv4 range; one rule per request.feature value (TcpForward, UdpForward, UdpBind) with a deny for one UdpBind destination',
        'feature_cases': 'UDP requests (reverse-udp datagram, socks5 associate, http CONNECT udp) routed to a SOCKS4 upstream / a load balancer: refused, upstream never connected', 'schedule_control': 'kernel', 'samples': samples}
 sys.exit(chk.finish('model_checking', cov, ['E4 part: the attribute values filters see are observed through the routing decision and the connection record; TPROXY and QUIC listeners are not driven']))
